@@ -28,13 +28,15 @@ MANIFEST = dict(
              "callback (callback multiset, stored pairs with r and dist, stored triples). Exclusion histories "
              "(CreateExclusions/Insert/Remove/list variants) are enumerated to a fixed depth and replayed with the "
              "full IsExcluded relation compared after every call. Random larger configurations run through the "
-             "real code are accepted or rejected by TLC evaluating the Spec operators on the logged result.",
+             "real code are accepted or rejected by TLC evaluating the Spec operators on the logged result. "
+             "Two mode-H layers: one list object used for several Generate calls (other box, cutoff, lists, with and "
+             "without Cleanup) must report the pairs/triples of each call's own configuration; the Topology object "
+             "(create/copy/cleanup/setBox/rename/exclusions) must answer every query as recomputed from what was created.",
         note="Trusted: TLC, the dyadic lattice argument (coordinates k/8 nm, rc given as rc^2: every distance "
              "decision differs by >= 1 lattice unit^2), the driver protocol. Only cutoffs up to half the shortest "
              "box height are asserted (one-cell directions are replayed but only recorded). For the 3-body lists "
              "only the stored triples are compared (the grid variant may call the match function for (i,j,k) and "
-             "(i,k,j)). Not modelled: re-use of a list object for a second Generate, overlapping but distinct "
-             "bead lists, non-reduced triclinic boxes, open boxes, custom pair types, match functions returning false.")
+             "(i,k,j)). Not modelled: overlapping but distinct bead lists, non-reduced triclinic boxes, open boxes, custom pair types, match functions returning false.")
 
 
 # ----------------------------------------------------------------------------------------------
@@ -311,6 +313,210 @@ def replay_exclusions(ctx, exe, hists):
 
 
 # ----------------------------------------------------------------------------------------------
+# object re-use histories (mode H, spec/nbgrid/NbHist.tla): one list object, several Generate calls
+# ----------------------------------------------------------------------------------------------
+
+def replay_reuse(ctx, exe, hists):
+    items = []
+    for i, r in enumerate(hists):
+        first = next(op for op in r["h"] if op["a"] == "gen")
+        conf = {"box": first["box"], "pos": first["pos"], "typ": r["typ"], "mol": r["mol"], "ias": r["ias"]}
+        for algo in ("grid", "simple"):          # one driver item per (history, class): a crash is attributed exactly
+            cmds = conf_cmds(conf)
+            r["_nsetup"] = len(cmds)
+            cmds.append("obj new %s %s" % ("pair" if r["kind"] == "p" else "tri", algo))
+            for op in r["h"]:
+                if op["a"] == "clean":
+                    cmds.append("obj clean")
+                    continue
+                cmds.append("setbox " + " ".join(str(v) for v in op["box"]))
+                for b, p in enumerate(op["pos"]):
+                    cmds.append("setpos %d %d %d %d" % (b, p[0], p[1], p[2]))
+                cmds.append("obj cut %d" % op["rc2"])
+                cmds.append("obj gen %d %s" % (1 if op["x"] else 0, " ".join(TYPES[t] for t in op["s"])))
+            items.append(((i, algo), cmds))
+    results, crashes = vlib.run_items(exe, items, timeout=3000)
+    for i, r in enumerate(hists):
+        ctx.traces += 1
+        ctx.nontriv(("reuse", r["kind"], json.dumps([(o.get("f"), o.get("rc2"), o.get("s"), o.get("x")) for o in r["h"]])))
+        n = len(r["typ"])
+        hist = [(q["a"], q.get("f"), q.get("rc2"), q.get("s")) for q in r["h"]]
+        for algo in ("grid", "simple"):
+            cls = CLASS[(r["kind"], algo)]
+            if (i, algo) in crashes:
+                ctx.violation("Reuse:%s:crash" % cls, "driver aborted (memory error) while one %s object is used for history %s: %s" % (
+                    cls, hist, crashes[(i, algo)][:1500]), r)
+                continue
+            out = results[(i, algo)]
+            pos = r["_nsetup"] + 1             # setup, obj new
+            ngen = 0
+            for op in r["h"]:
+                if op["a"] == "clean":
+                    pos += 1
+                    continue
+                pos += 1 + n + 1               # setbox, setpos*, obj cut
+                o = out[pos]
+                pos += 1
+                ngen += 1
+                when = ("first" if ngen == 1 else "later") + (":after-cleanup" if op["fresh"] and ngen > 1 else
+                                                              "" if op["fresh"] else ":accumulating")
+                base = "Reuse:%s:%s:%s" % (cls, variant({"k": r["kind"], "s": op["s"]}), when)
+                if not o or o[0].startswith("exc") or len(o) < 2:
+                    ctx.violation(base + ":exception", "Generate failed: %s in history %s" % (o, hist), r)
+                    break
+                bad = []
+                if r["kind"] == "p":
+                    rows = {(w[0], w[1]): (tuple(w[2:5]), w[5], w[6] == 1) for w in op["rows"]}
+                    calls = parse_pairs(o[0], "calls")
+                    stored = parse_pairs(o[1], "stored")
+                    bad += cmp_pair_list(calls, rows, "callback")
+                    if op["fresh"]:
+                        bad += cmp_pair_list(stored, rows, "stored")
+                    else:
+                        # accumulating list: identities old + new (or only new), each once; the vectors of
+                        # pairs that were stored before are not specified
+                        ids = collections.Counter((min(q[0], q[1]), max(q[0], q[1])) for q in stored)
+                        want1 = set(rows)
+                        want2 = want1 | set((a, b) for a, b in op["old"])
+                        if any(v > 1 for v in ids.values()):
+                            bad.append(("stored-duplicate", "stored pairs %s" % sorted(ids.elements())))
+                        elif set(ids) != want1 and set(ids) != want2:
+                            bad.append(("stored-set", "stored pairs %s, expected %s or only %s" % (sorted(ids), sorted(want2), sorted(want1))))
+                else:
+                    rows = set((w[0], w[1], w[2]) for w in op["rows"])
+                    stored = parse_triples(o[1])
+                    if op["fresh"]:
+                        bad += cmp_triples(stored, rows)
+                    else:
+                        ids = collections.Counter((q[0], min(q[1], q[2]), max(q[1], q[2])) for q in stored)
+                        want2 = rows | set((a, b, c) for a, b, c in op["old"])
+                        if any(v > 1 for v in ids.values()):
+                            bad.append(("stored-duplicate", "stored triples %s" % sorted(ids.elements())))
+                        elif set(ids) != rows and set(ids) != want2:
+                            bad.append(("stored-set", "stored triples %s, expected %s or only %s" % (sorted(ids), sorted(want2), sorted(rows))))
+                kinds = set(k for k, _ in bad)
+                for kind, text in bad:
+                    if kind.startswith("stored-") and "callback-" + kind[7:] in kinds:
+                        continue
+                    ctx.violation(base + ":" + kind, "%s re-used, call %d of history %s: %s | box=%s rc2=%d pos=%s" % (
+                        cls, ngen, hist, text, op["box"], op["rc2"], op["pos"]), r)
+                if bad:
+                    break
+
+
+# ----------------------------------------------------------------------------------------------
+# topology substrate (mode H, spec/topology/Topology.tla); keys prefixed "Topology:"
+# ----------------------------------------------------------------------------------------------
+
+def _topo_cmds(w, op):
+    a, arg = op["a"], op["arg"]
+    t = "t %d " % w
+    if a == "res":
+        return t + "res " + arg[0]
+    if a == "bead":
+        return t + "bead %s %s %d" % (arg[0], arg[1], arg[2])
+    if a == "mol":
+        return t + "mol " + arg[0]
+    if a == "add":
+        return t + "add %d %d" % (arg[0] - 1, arg[1] - 1)
+    if a == "ia":
+        return t + "ia %s %d %s" % (arg[0], len(arg[1]), " ".join(str(b - 1) for b in arg[1]))
+    if a == "box":
+        return t + "box %s %s" % (" ".join(str(v) for v in arg[0]), arg[1])
+    if a == "rename":
+        return t + "rename %s %s" % (arg[0], arg[1])
+    return t + a          # rebuild, cleanup, copy
+
+
+def _source_cmds(src):
+    cmds = ["t 1 new"]
+    for n in src["res"]:
+        cmds.append("t 1 res " + n)
+    for b in src["beads"]:
+        cmds.append("t 1 bead %s %s %d" % (b["name"], b["type"], b["resnr"]))
+    for mi, m in enumerate(src["mols"]):
+        cmds.append("t 1 mol " + m["name"])
+        for b in m["beads"]:
+            cmds.append("t 1 add %d %d" % (mi, b - 1))
+    cmds.append("t 1 box %s %s" % (" ".join(str(v) for v in src["box"]["v"]), src["box"]["t"]))
+    return cmds
+
+
+def _topo_diff(got, exp):
+    """fields of the observable state that differ: [(field, text)]"""
+    bad = []
+
+    def chk(field, g, e):
+        if g != e:
+            bad.append((field, "%s = %s, expected %s" % (field, g, e)))
+    chk("residues", got["res"], [[i, n] for i, n in enumerate(exp["res"])])
+    chk("beads", got["beads"], [[i] + list(b) for i, b in enumerate(exp["beads"])])
+    chk("molecules", got["mols"], [[i] + list(m) for i, m in enumerate(exp["mols"])])
+    chk("interaction-count", got["nia"], exp["nia"])
+    chk("interactions", got["ialist"], exp["ialist"])
+    chk("interaction-groups", got["grp"], exp["grp"])
+    chk("group-ids", got["gid"], exp["gid"])
+    chk("box-type", got["bt"], exp["bt"])
+    if exp["boxset"]:
+        ok = all(isinstance(x, (int, float)) and x == x and vlib.close(float(x), float(y), 1e-12, 1e-12)
+                 for x, y in zip(got["box"], exp["box"])) and all(x == 0 for x in got["low"])
+        if not ok:
+            bad.append(("box", "box = %s (lower triangle %s), expected %s" % (got["box"], got["low"], exp["box"])))
+    chk("exclusions", sorted(map(list, got["excl"])), sorted(map(list, exp["excl"])))
+    chk("beadlist", got["sel"], exp["sel"])
+    return bad
+
+
+def replay_topology(ctx, exe, hists):
+    items = []
+    for i, r in enumerate(hists):
+        cmds = _source_cmds(r["src"]) + ["t 0 new"]
+        r["_nsetup"] = len(cmds)
+        for op in r["h"]:
+            cmds.append(_topo_cmds(0, op))
+            cmds.append("t 0 q")
+        items.append((i, cmds))
+    # no quarantine: freed bead storage is handed out again at once, as with the normal allocator, so that
+    # state keyed by the address of a destroyed bead (stale exclusions) becomes observable
+    results, crashes = vlib.run_items(exe, items, timeout=3000,
+                                      env={"ASAN_OPTIONS": "detect_leaks=0:abort_on_error=0:quarantine_size_mb=0"})
+    for i, r in enumerate(hists):
+        ctx.traces += 1
+        ops = [o["a"] for o in r["h"]]
+        ctx.nontriv(("topology", json.dumps([(o["a"], o["arg"]) for o in r["h"]])))
+        if i in crashes:
+            ctx.violation("Topology:crash", "driver aborted (memory error) in history %s: %s" % (
+                [(o["a"], o["arg"]) for o in r["h"]], crashes[i][:1500]), r)
+            continue
+        out = results[i]
+        for k in range(r["_nsetup"]):
+            if not out[k] or not out[k][0].startswith("ok"):
+                raise vlib.InfraError("topology driver setup failed: %s" % out[k])
+        for j, op in enumerate(r["h"]):
+            res = out[r["_nsetup"] + 2 * j]
+            q = out[r["_nsetup"] + 2 * j + 1]
+            hist = [(o["a"], o["arg"]) for o in r["h"][:j + 1]]
+            after = ":after-cleanup" if "cleanup" in ops[:j] else ":after-copy" if "copy" in ops[:j] else ""
+            if op["obs"] == "throws":
+                if not res or not res[0].startswith("exc"):
+                    ctx.violation("Topology:%s:no-exception" % op["a"], "history %s: call returned %s, an exception was expected" % (hist, res), r)
+                break
+            if not res or not res[0].startswith("ok"):
+                ctx.violation("Topology:%s:exception" % op["a"], "history %s: %s" % (hist, res), r)
+                break
+            try:
+                got = json.loads(q[0])
+            except Exception:
+                ctx.violation("Topology:%s:query-failed" % op["a"], "history %s: state query printed %s" % (hist, q), r)
+                break
+            bad = _topo_diff(got, op["obs"])
+            for field, text in bad:
+                ctx.violation("Topology:%s:%s%s" % (op["a"], field, after), "history %s: %s" % (hist, text), r)
+            if bad:
+                break
+
+
+# ----------------------------------------------------------------------------------------------
 # random configurations: the real code runs first, TLC validates the logged result (TraceNbGrid)
 # ----------------------------------------------------------------------------------------------
 
@@ -456,7 +662,11 @@ def replay_artefact(ctx, exe, path):
     if os.path.exists(evp):
         old = open(evp).read()
         atexit.register(lambda: open(evp, "w").write(old))
-    if "h" in obj:
+    if "h" in obj and "kind" in obj:
+        replay_reuse(ctx, exe, [obj])
+    elif "h" in obj and "src" in obj:
+        replay_topology(ctx, exe, [obj])
+    elif "h" in obj:
         replay_exclusions(ctx, exe, [obj])
     elif "runs" in obj:
         Replayer(ctx, exe).replay([obj], "replay")
@@ -523,6 +733,18 @@ def run(ctx):
     ctx.extra["configurations"] = nvec
     ctx.extra["generate_calls_compared"] = 2 * rp.runs
 
+    # ---- 1b. one list object used for several Generate calls (mode H) -------------------------------------
+    mod = "MCNbHistQuick" if quick else "MCNbHistThorough"
+    res = vlib.tlc("nbgrid", mod, cfg=mod + ".cfg", timeout=3000)
+    vlib.tlc_must_hold(res, "NbHist: every Generate of a re-used object = Spec of its own configuration")
+    ctx.add_tlc(mod, res)
+    hists = res.records
+    res.out = ""
+    replay_reuse(ctx, exe, hists)
+    ctx.extra["reuse_histories"] = len(hists)
+    if hists:
+        ctx.sample({"reuse_history": [(o["a"], o.get("box"), o.get("rc2"), o.get("s")) for o in hists[len(hists) // 2]["h"]]})
+
     # ---- 2. exclusion histories (mode H) --------------------------------------------------------------
     mod = "MCExclQuick" if quick else "MCExclThorough"
     res = vlib.tlc("nbgrid", mod, cfg=mod + ".cfg", timeout=1500)
@@ -538,6 +760,28 @@ def run(ctx):
         vlib.tlc_must_hold(res, "ExclusionList simulation")
         ctx.add_tlc("MCExclSim(simulate)", res)
         replay_exclusions(ctx, exe, res.records)
+
+    # ---- 2b. topology substrate (mode H, spec/topology): keys Topology:... --------------------------------
+    thists = []
+    res = vlib.tlc("topology", "MCTopology", cfg="MCTopologyBfs.cfg", timeout=1500)
+    vlib.tlc_must_hold(res, "Topology: consistency of the abstract state (BFS)")
+    ctx.add_tlc("MCTopologyBfs", res)
+    thists += res.records
+    if not quick:
+        res = vlib.tlc("topology", "MCTopology", cfg="MCTopologyCore.cfg", timeout=1500)
+        vlib.tlc_must_hold(res, "Topology: consistency of the abstract state (core alphabet, deeper)")
+        ctx.add_tlc("MCTopologyCore", res)
+        thists += res.records
+    res = vlib.tlc("topology", "MCTopology", cfg="MCTopologySim.cfg", timeout=1500, simulate=100 if quick else 1200,
+                   depth=14, workers=4, seed=ctx.seed)
+    vlib.tlc_must_hold(res, "Topology simulation")
+    ctx.add_tlc("MCTopologySim(simulate)", res)
+    thists += res.records
+    replay_topology(ctx, exe, thists)
+    ctx.extra["topology_histories"] = len(thists)
+    if thists:
+        ctx.sample({"topology_history": [(o["a"], o["arg"]) for o in thists[-1]["h"]]})
+    del thists
 
     # ---- 3. random configurations validated by TLC ---------------------------------------------------------
     acc = trace_validate(ctx, exe, 150 if quick else 800, 8 if quick else 16)
